@@ -93,14 +93,27 @@ Theorem C12_same_doc_iso : forall (fr1 fr2 : N -> N) j d,
 Proof. exact same_doc_iso. Qed.
 Print Assumptions C12_same_doc_iso.
 
-(* Finding F9: with the identity discipline (TriX, JSON-LD, HexTuples) the statement
-   fails - two documents that use the same label share the node. *)
+(* Finding F9: with the identity discipline (JSON-LD, HexTuples; the repository's own tests
+   pin label preservation for both) the statement fails - two documents that use the same
+   label share the node. *)
 Theorem C12_labels_scoped_refuted :
   exists c, wf c /\ kf c = 1%N /\ spec_ok c (model_obs c) = false /\
     exists n, q_mem ((n, TAGP, tag 0 0), 0%N) (last (model_obs c) []) = true
            /\ q_mem ((n, TAGP, tag 1 0), 1%N) (last (model_obs c) []) = true.
 Proof. exists w_f9. exact f9_witness. Qed.
 Print Assumptions C12_labels_scoped_refuted.
+
+(* The TriX half of F9 is FIXED (commit 3d9dc36a): TriX is a [Fresh] parser now, covered by
+   C12_merge / C12_labels_scoped; the old TriX witness (label = id of an existing node) and a
+   label shared by two TriX calls are in scope and accepted. *)
+Theorem C12_trix_witness_now_passes :
+  wf w_f9_trix /\ kf w_f9_trix = 0%N /\ spec_ok w_f9_trix (model_obs w_f9_trix) = true.
+Proof. exact f9_trix_fixed. Qed.
+Print Assumptions C12_trix_witness_now_passes.
+
+Theorem C12_trix_is_fresh : disc_of TRIX = Fresh.
+Proof. reflexivity. Qed.
+Print Assumptions C12_trix_is_fresh.
 
 (* Finding F12 (FIXED by commit 57c67bab): the code as it was before the repair
    ([parse_call_prefix]: N-Quads / HexTuples emptied <urn:x-rdflib:default>) lost a quad that
